@@ -27,7 +27,7 @@ const minPart = 5 << 20
 var keyNames = []string{"k1", "dir/k2", "k3"}
 
 type op struct {
-	Kind   string `json:"kind"` // create, part, partcopy, listparts, listuploads, complete, abort, get, list, put
+	Kind   string `json:"kind"` // create, part, partcopy, listparts, listuploads, complete, abort, get, list, put, badcreate, ghost
 	Key    int    `json:"key,omitempty"`
 	Upload int    `json:"upload,omitempty"` // index into the uploads created so far (mod)
 	PartNo string `json:"part_no,omitempty"`
@@ -43,6 +43,10 @@ type op struct {
 	Range string `json:"range,omitempty"`
 	// list params
 	Max    string `json:"max,omitempty"`
+	// ghost: a part upload / part copy / ListParts / completion / abort under an upload id that names no upload of the key:
+	// GhostID = empty, unknown (well-formed, never handed out), other-key (the id of an upload in progress on another key)
+	GhostID string `json:"ghost_id,omitempty"`
+	GhostOp string `json:"ghost_op,omitempty"` // part, partcopy, listparts, complete, abort
 	Marker string `json:"marker,omitempty"`
 	Prefix string `json:"prefix,omitempty"`
 	Delim  string `json:"delim,omitempty"`
@@ -118,7 +122,7 @@ func getWorld(c caseA) (*world, string, error) {
 func runA(c caseA) error { _, err := execA(c); return err }
 
 type stats struct {
-	CompletedMulti, AfterReupload, SameKeyUploads, RefusedCreates int
+	CompletedMulti, AfterReupload, SameKeyUploads, RefusedCreates, Ghosts int
 }
 
 func execA(c caseA) (st stats, err error) {
@@ -283,6 +287,60 @@ func execA(c caseA) (st stats, err error) {
 				np.Prev = append(append([]string(nil), old.Prev...), old.ETag)
 			}
 			u.Parts[pn] = np
+		case "ghost":
+			id := ""
+			key := o.Key
+			switch o.GhostID {
+			case "unknown":
+				id = "6f1e0c5e-0000-4000-8000-5ca1ab1e0001"
+			case "other-key":
+				var ou *upload
+				for _, u := range open() {
+					if u.Key != o.Key%len(keyNames) {
+						ou = u
+					}
+				}
+				if ou == nil {
+					continue
+				}
+				id = ou.ID
+			}
+			var r *s3c.Resp
+			switch o.GhostOp {
+			case "part":
+				r, err = cl.Call("PUT", path(key), s3c.Q("partNumber", "1", "uploadId", id), nil, body(77, 1000))
+			case "partcopy":
+				if !srcPut {
+					continue
+				}
+				r, err = cl.Call("PUT", path(key), s3c.Q("partNumber", "1", "uploadId", id), []s3c.KV{{K: "x-amz-copy-source", V: b + "/copysrc"}}, nil)
+			case "listparts":
+				r, err = cl.Call("GET", path(key), s3c.Q("uploadId", id), nil, nil)
+				if err == nil && r.OK() && !strings.Contains(string(r.Body), "<ListPartsResult") {
+					continue // (an empty id is no id: the request was a plain GET of the key)
+				}
+			case "complete":
+				r, err = cl.Call("POST", path(key), s3c.Q("uploadId", id), nil, s3c.CompleteXML([]s3c.Part{{PartNumber: 1, ETag: "5d41402abc4b2a76b9719d911017c592"}}))
+			default:
+				r, err = cl.Call("DELETE", path(key), s3c.Q("uploadId", id), nil, nil)
+				if err == nil && r.OK() && o.GhostID == "empty" {
+					// (an empty id is no id: the request was a plain DeleteObject of the key)
+					delete(objs, key%len(keyNames))
+					continue
+				}
+			}
+			if err != nil {
+				return st, fmt.Errorf("SETUP: transport: %v", err)
+			}
+			if r.OK() {
+				return st, fmt.Errorf("%s: %s of key %q under upload id %q (%s: it names no upload of that key) answers %d: %.200s", where, o.GhostOp, keyNames[key%len(keyNames)], id, o.GhostID, r.Status, r.Body)
+			}
+			st.Ghosts++
+			// nothing may have changed: the key reads as before, the uploads in progress list as before (the sweep at the end
+			// and every later ListParts / completion compare them with the model)
+			if err := checkObject(key, where); err != nil {
+				return st, err
+			}
 		case "listparts":
 			if len(ups) == 0 {
 				continue
@@ -611,13 +669,16 @@ func parseRange(s string, size int) (lo, hi int, ok bool) {
 func opGen() *rapid.Generator[op] {
 	return rapid.Custom(func(t *rapid.T) op {
 		var o op
-		o.Kind = rapid.SampledFrom([]string{"create", "create", "part", "part", "part", "part", "partcopy", "listparts", "listuploads", "complete", "complete", "abort", "get", "list", "put", "badcreate"}).Draw(t, "kind")
+		o.Kind = rapid.SampledFrom([]string{"create", "create", "part", "part", "part", "part", "partcopy", "listparts", "listuploads", "complete", "complete", "abort", "get", "list", "put", "badcreate", "ghost"}).Draw(t, "kind")
 		o.Key = rapid.IntRange(0, 2).Draw(t, "key")
 		o.Upload = rapid.IntRange(0, 3).Draw(t, "upload")
 		switch o.Kind {
 		case "badcreate":
 			o.Meta = "u-bad"
 			o.Seed = rapid.Uint64Range(0, 4).Draw(t, "bad_create")
+		case "ghost":
+			o.GhostID = rapid.SampledFrom([]string{"empty", "unknown", "other-key", "other-key"}).Draw(t, "ghost_id")
+			o.GhostOp = rapid.SampledFrom([]string{"part", "part", "partcopy", "listparts", "complete", "abort"}).Draw(t, "ghost_op")
 		case "create":
 			o.Meta = rapid.SampledFrom([]string{"u-a", "u-b", "u-c", "u-d"}).Draw(t, "meta")
 		case "part", "partcopy":
@@ -789,6 +850,9 @@ func TestC08A(t *testing.T) {
 		}
 		if st.RefusedCreates > 0 {
 			cls = append(cls, "refused-initiation")
+		}
+		if st.Ghosts > 0 {
+			cls = append(cls, "request-under-an-id-that-names-no-upload")
 		}
 		if len(cls) == 0 {
 			cls = []string{"plain"}
